@@ -46,7 +46,7 @@ func LoadProgram(dir string, patterns []string) (*Program, error) {
 		}
 		return nil, fmt.Errorf("package load errors:\n%s", strings.Join(errs, "\n"))
 	}
-	prog, spkgs := ssautil.AllPackages(pkgs, ssa.InstantiateGenerics)
+	prog, spkgs := ssautil.AllPackages(pkgs, ssa.InstantiateGenerics|ssa.GlobalDebug)
 	prog.Build()
 	p := &Program{Dir: dir, Pkgs: pkgs, Prog: prog, SSA: spkgs, byName: map[string]*ssa.Function{}, pkgs: map[string]*packages.Package{}}
 	packages.Visit(pkgs, nil, func(pk *packages.Package) { p.pkgs[pk.PkgPath] = pk })
